@@ -19,6 +19,10 @@ BROOT = os.environ.get("VERIF_BUILD", os.path.join(VERIF, "build"))
 TLA_JAR = "/opt/veriftools/tla/tla2tools.jar:/opt/veriftools/tla/CommunityModules-deps.jar"
 
 
+import itertools
+_counter = itertools.count()
+
+
 class Broken(Exception):
     """The check's own machinery failed (never reported as a violation)."""
 
@@ -145,7 +149,7 @@ class Ctx:
         violation => Broken."""
         specp = os.path.join(VERIF, "spec", spec)
         cfgp = os.path.join(VERIF, "spec", cfg)
-        meta = os.path.join(self.tmp, "tlc-%d-%d" % (os.getpid(), int(time.time() * 1000) % 10 ** 9))
+        meta = os.path.join(self.tmp, "tlc-%d-%d" % (os.getpid(), next(_counter)))
         os.makedirs(meta, exist_ok=True)
         flat = os.path.join(meta, "spec")      # TLC resolves EXTENDS in the spec's directory only:
         os.makedirs(flat, exist_ok=True)       # give it a flat view (symlinks) of spec/**
@@ -200,9 +204,12 @@ class Ctx:
             if line.startswith('<<"B", ') or line.startswith("<<\"B\","):
                 r.printed.append(line)
         if coverage:
-            for m in re.finditer(r"<(\w+) line \d+, col \d+ to line \d+, col \d+ of module (\w+)>: (\d+):(\d+)", out):
+            for m in re.finditer(r"<(\w+) line \d+, col \d+ to line \d+, col \d+ of module (\w+)(?: \((\d+) (\d+) (\d+) (\d+)\))?>: (\d+):(\d+)", out):
                 a = m.group(1)
-                tk, gn = int(m.group(3)), int(m.group(4))
+                if m.group(3):
+                    # a disjunct of Next under a state-dependent \E: name it after the action it applies
+                    a = _action_at(m.group(2), int(m.group(3)), int(m.group(4)), int(m.group(6))) or a
+                tk, gn = int(m.group(7)), int(m.group(8))
                 old = r.coverage.get(a, (0, 0))
                 r.coverage[a] = (old[0] + tk, old[1] + gn)
         if count:
@@ -256,7 +263,7 @@ class Ctx:
         for (sig, desc, path) in known_hits:
             print("KNOWN-FINDING: property=%s sig=%s %s" % (self.pid, sig, desc))
         for (sig, what, path) in viol:
-            print("VIOLATION property=%s replay=%s sig=%s :: %s" % (self.pid, path or "-", sig, what))
+            print("VIOLATION property=%s replay=%s sig=%s :: %s" % (self.pid, path or "-", sig, " | ".join(what.splitlines())[:900]))
         cov = {}
         if self.level == "model_checking":
             cov["states"] = self.tlc_states
@@ -285,6 +292,18 @@ class Ctx:
         print("OK property=%s tier=%s wall=%.1fs %s" % (self.pid, self.tier, time.time() - self.t0,
               " ".join("%s=%s" % (k, v) for k, v in cov.items() if isinstance(v, (int, bool)))))
         return 0
+
+
+def _action_at(module, line, c1, c2):
+    for root, _, files in os.walk(os.path.join(VERIF, "spec")):
+        if module + ".tla" in files:
+            try:
+                text = open(os.path.join(root, module + ".tla")).read().splitlines()[line - 1][c1 - 1:c2]
+            except IndexError:
+                return None
+            names = re.findall(r"([A-Z]\w*)\s*(?:\(|$)", text)
+            return names[-1] if names else None
+    return None
 
 
 def tail(s, n):
